@@ -275,7 +275,7 @@ func runC13(ctx *core.Ctx, pool *par.Pool) {
 	ctx.SetBudget(110 * time.Second)
 	if !ctx.Quick() {
 		bound = 2
-		ctx.SetBudget(28 * time.Minute)
+		ctx.SetBudget(15 * time.Minute)
 	}
 	ps, names := pcScenarios(ctx.Quick())
 	bounds := func(int) explore.Bounds { return explore.Bounds{Preempt: bound} }
